@@ -6,6 +6,7 @@
 #include "clang/AST/Mangle.h"
 #include "clang/AST/StmtVisitor.h"
 #include "clang/AST/CXXInheritance.h"
+#include "clang/AST/QualTypeNames.h"
 #include "clang/Frontend/CompilerInstance.h"
 #include "clang/Frontend/FrontendAction.h"
 #include "clang/Tooling/Tooling.h"
@@ -773,6 +774,23 @@ struct Lower {
       r += "); __ipr_fl_push((void*)" + self + ", " + t + "); " + t + "; })";
       return FD->getReturnType()->isReferenceType() ? "(*" + r + ")" : r;
     }
+    if (q.rfind("std::forward_list<",0)==0 && FD->getNameAsString()=="emplace_after") {
+      // emplace_after(pos, args...): storage from the allocator, the object constructed in place by the constructor clang selected,
+      // then linked after pos; iterators are modelled as the address of the element they designate (harness/flmodel.h)
+      auto* MD = llvm::cast<CXXMethodDecl>(FD);
+      auto* Spec = dyn_cast<ClassTemplateSpecializationDecl>(MD->getParent());
+      const CXXRecordDecl* T = Spec->getTemplateArgs()[0].getAsType()->getAsCXXRecordDecl();
+      const FunctionDecl* CF = findPlacementFn(FD, T);
+      if (!CF) throw Unsupported{"emplace_after: construct function not found"};
+      transparentStd.insert(CF);
+      std::string pt = declareAbstract(C.getPointerType(QualType(T->getTypeForDecl(),0)));
+      std::string it = declareAbstract(FD->getReturnType()), pit = declareAbstract(FD->getParamDecl(0)->getType());
+      std::string t = "__n" + std::to_string(tmpId++), p = "__p" + std::to_string(tmpId++), r0 = "__r" + std::to_string(tmpId++);
+      std::string r = "({ " + pit + " " + p + " = " + ex(X->getArg(first)) + "; " + pt + " " + t + " = (" + pt + ")__ipr_alloc(sizeof(*" + t + ")); " + fn(CF) + "(" + t;
+      for (unsigned i = first + 1; i < X->getNumArgs(); ++i) r += ", " + arg(X->getArg(i), CF->getParamDecl(i-first)->getType());
+      r += "); " + it + " " + r0 + "; __builtin_memset(&" + r0 + ", 0, sizeof " + r0 + "); *(void**)&" + r0 + " = __ipr_fl_insert_after((void*)" + self + ", *(void**)&" + p + ", " + t + "); " + r0 + "; })";
+      return r;
+    }
     if (q.rfind("std::forward_list<",0)==0 && FD->getNameAsString()=="front") {
       return "(*(" + declareAbstract(C.getPointerType(FD->getReturnType().getNonReferenceType())) + ")__ipr_fl_front((void*)" + self + "))";
     }
@@ -1152,7 +1170,51 @@ struct Cons : ASTConsumer {
     }
   }
 };
-std::string catalogueJson(ASTContext&, Lower&) { return "{}"; }
+// ---- catalogue: facts about the class hierarchy read off the AST (K6 / enumeration of instances): every complete, non-dependent
+// record of namespace ipr with its bases and member functions (fully qualified types), so that harness generators can enumerate
+// factories, interface accessors and visitor hooks of the CURRENT tree instead of a hand-kept list.
+struct CatVisitor : RecursiveASTVisitor<CatVisitor> {
+  ASTContext& C; Lower& L; PrintingPolicy PP; std::vector<std::string> recs; std::set<const CXXRecordDecl*> seen;
+  CatVisitor(ASTContext& c, Lower& l) : C(c), L(l), PP(c.getPrintingPolicy()) { PP.SuppressTagKeyword = true; PP.Bool = true; PP.SuppressUnwrittenScope = false; PP.SuppressInlineNamespace = true; }
+  bool shouldVisitTemplateInstantiations() const { return true; }
+  std::string ty(QualType T) { return Lower::jsonEsc(TypeName::getFullyQualifiedName(T, C, PP, false)); }
+  std::string canon(QualType T) { return Lower::jsonEsc(TypeName::getFullyQualifiedName(T.getCanonicalType(), C, PP, false)); }
+  bool VisitCXXRecordDecl(CXXRecordDecl* D) {
+    if (!D->isThisDeclarationADefinition() || D->isDependentContext() || D->isLambda() || D->isInjectedClassName()) return true;
+    if (isa<ClassTemplatePartialSpecializationDecl>(D) || D->getDescribedClassTemplate()) return true;
+    std::string q = D->getQualifiedNameAsString();
+    if (q.rfind("ipr::", 0) != 0 || !seen.insert(D->getCanonicalDecl()).second) return true;
+    std::string iface;
+    for (auto* Dm : D->lookup(&C.Idents.get("Interface"))) if (auto* TD = dyn_cast<TypedefNameDecl>(Dm)) iface = canon(TD->getUnderlyingType());
+    std::string r = "{\"name\": \"" + canon(C.getRecordType(D)) + "\", \"interface\": \"" + iface + "\", \"qualified\": \"" + Lower::jsonEsc(q) + "\", \"abstract\": " + (D->isAbstract() ? "true" : "false") + ", \"polymorphic\": " + (D->isPolymorphic() ? "true" : "false")
+      + ", \"final\": " + (D->isEffectivelyFinal() ? "true" : "false") + ", \"local\": " + (D->isLocalClass() ? "true" : "false") + ", \"bases\": [";
+    bool f = true; for (auto& B : D->bases()) { r += std::string(f ? "" : ", ") + "\"" + canon(B.getType()) + "\""; f = false; }
+    r += "], \"methods\": [";
+    f = true;
+    for (auto* M : D->methods()) {
+      if (M->isImplicit() || isa<CXXConstructorDecl>(M) || isa<CXXDestructorDecl>(M) || M->isTemplated()) continue;
+      std::string m = "{\"name\": \"" + Lower::jsonEsc(M->getNameAsString()) + "\", \"ret\": \"" + ty(M->getReturnType()) + "\", \"ret_canon\": \"" + canon(M->getReturnType()) + "\", \"virtual\": " + (M->isVirtual() ? "true" : "false") + ", \"pure\": " + (M->isPure() ? "true" : "false")
+        + ", \"const\": " + (M->isConst() ? "true" : "false") + ", \"static\": " + (M->isStatic() ? "true" : "false") + ", \"access\": \"" + (M->getAccess() == AS_public ? "public" : M->getAccess() == AS_protected ? "protected" : "private")
+        + "\", \"introduces\": " + (M->isVirtual() && M->size_overridden_methods() == 0 ? "true" : "false") + ", \"deleted\": " + (M->isDeleted() ? "true" : "false") + ", \"mangled\": \"" + L.mangle(M) + "\", \"params\": [";
+      bool g = true; for (auto* P : M->parameters()) { m += std::string(g ? "" : ", ") + "\"" + ty(P->getType()) + "\""; g = false; }
+      m += "], \"params_canon\": [";
+      g = true; for (auto* P : M->parameters()) { m += std::string(g ? "" : ", ") + "\"" + canon(P->getType()) + "\""; g = false; }
+      m += "], \"defaults\": [";
+      g = true; for (auto* P : M->parameters()) { m += std::string(g ? "" : ", ") + (P->hasDefaultArg() ? "true" : "false"); g = false; }
+      r += std::string(f ? "" : ", ") + m + "]}"; f = false;
+    }
+    r += "], \"ctors\": [";
+    f = true;
+    for (auto* K : D->ctors()) {
+      if (K->isImplicit() || K->isDeleted() || K->isTemplated() || K->isCopyOrMoveConstructor()) continue;
+      std::string m = "["; bool g = true; for (auto* P : K->parameters()) { m += std::string(g ? "" : ", ") + "\"" + ty(P->getType()) + "\""; g = false; }
+      r += std::string(f ? "" : ", ") + m + "]"; f = false;
+    }
+    recs.push_back(r + "]}");
+    return true;
+  }
+};
+std::string catalogueJson(ASTContext& C, Lower& L) { CatVisitor V(C, L); V.TraverseDecl(C.getTranslationUnitDecl()); return "{\"records\": " + joinJson(V.recs) + "}"; }
 struct Act : ASTFrontendAction { std::unique_ptr<ASTConsumer> CreateASTConsumer(CompilerInstance&, llvm::StringRef) override { return std::make_unique<Cons>(); } };
 int main(int argc, const char** argv) {
   auto P = tooling::CommonOptionsParser::create(argc, argv, Cat);
